@@ -333,41 +333,50 @@ theorem manual_restart_witness :
 
 end timer
 
-/-! ### resume requested by another thread inside a round (partial) -/
+/-! ### resume requested by another thread at any point of a round -/
 
-/-- SECOND-THREAD RESUME INSIDE A TRAVERSAL (partial answer to "at any point of the round").
-    The connection traversals of a round (eready list / select snapshot / poll snapshot) are sequences of
-    atomic steps — one call_handlers per connection, each suspend inside taking cleanup_connection_mutex.
-    Split such a traversal at *any* point (`l₁ ++ l₂`) and let another thread call
-    MHD_resume_connection for a suspended connection `c` there (`resumeReq`, atomic under the same mutex).
-    Then at the end of the traversal the request is still pending — `c` is in the suspended list,
-    `connection->resuming` and `daemon->resuming` are set — MHD_get_timeout answers 0 (the loop must not
-    block; with an internal thread the ITC signal plays this role), and in any consistent state the next
-    resume_suspended_connections moves `c` back (`resumed` marker, active list, epoll: eready + ready flags).
-    `c ∉ l₁ ++ l₂` holds for every real traversal: the lists are sub-lists of the active list
-    (`lists_consistent`) and `c` is suspended.
-    NOT covered (missing for the full statement): the points between the non-traversal phases of a round
-    (timers | resume_suspended_connections | epoll events | new connections | timeout scan); a resume that
-    lands before resume_suspended_connections is served in the same round (`epoll_no_lost_wakeup`,
-    `resume_reenters`), one that lands after it commutes with those phases as with the turns here —
-    the per-phase `Pend` lemmas for `epollEvents` / `processNew` / `timeoutScan` are not written. -/
-theorem resume_inside_traversal_partial (c : Nat) (l₁ l₂ : List Nat) (d : Daemon) (hs : c ∈ d.susp)
-    (h₂ : c ∉ l₂) (fr fw rd wr : Nat → Bool) :
-    (let d' := (travEready srcGuards l₂ (resumeReq (travEready srcGuards l₁ d).1 c).1).1
-     Pend c d' ∧ d'.hintZero = true ∧ (WF d' → (c, CEv.resumed) ∈ (resumeSuspended srcGuards d').2 ∧
-       c ∈ (resumeSuspended srcGuards d').1.active)) ∧
-    (let d' := (travSelect srcGuards fr fw rd wr l₂ (resumeReq (travSelect srcGuards fr fw rd wr l₁ d).1 c).1).1
-     Pend c d' ∧ d'.hintZero = true ∧ (WF d' → (c, CEv.resumed) ∈ (resumeSuspended srcGuards d').2 ∧
-       c ∈ (resumeSuspended srcGuards d').1.active)) ∧
-    (let d' := (travAll srcGuards fr fw rd wr l₂ (resumeReq (travAll srcGuards fr fw rd wr l₁ d).1 c).1).1
-     Pend c d' ∧ d'.hintZero = true ∧ (WF d' → (c, CEv.resumed) ∈ (resumeSuspended srcGuards d').2 ∧
-       c ∈ (resumeSuspended srcGuards d').1.active)) := by
-  have fin : ∀ d' : Daemon, Pend c d' → Pend c d' ∧ d'.hintZero = true ∧ (WF d' → (c, CEv.resumed) ∈ (resumeSuspended srcGuards d').2 ∧
-       c ∈ (resumeSuspended srcGuards d').1.active) := fun d' hp =>
-    ⟨hp, Pend_hint hp, fun hw => ⟨(resume_moves_back srcGuards d' hw c hp.1 hp.2.1).1, (resume_moves_back srcGuards d' hw c hp.1 hp.2.1).2.1⟩⟩
-  exact ⟨fin _ (Pend_travEready srcGuards c l₂ _ h₂ (Pend_resumeReq _ c (susp_travEready srcGuards c l₁ d hs))),
-    fin _ (Pend_travSelect srcGuards c fr fw rd wr l₂ _ h₂ (Pend_resumeReq _ c (susp_travSelect srcGuards c fr fw rd wr l₁ d hs))),
-    fin _ (Pend_travAll srcGuards c fr fw rd wr l₂ _ h₂ (Pend_resumeReq _ c (susp_travAll srcGuards c fr fw rd wr l₁ d hs)))⟩
+/-- what "served" means for a round `R` in which the other thread's MHD_resume_connection (c) lands at position `p`
+    (`R (some p)`): at position 0 — before resume_suspended_connections — this very round moves `c` back; at every later
+    position the request is pending when the round ends (`c` still in the suspended list, `connection->resuming` and
+    `daemon->resuming` set, all lists consistent), MHD_get_timeout answers 0 — the loop must not block; with an internal
+    thread the ITC signal written by MHD_resume_connection plays this role — and the next resume_suspended_connections
+    moves `c` back. -/
+def ServedAt (c : Nat) (R : Option Nat → Daemon × List Ev) : Prop :=
+  (c, CEv.resumed) ∈ (R (some 0)).2 ∧
+  ∀ q, 1 ≤ q →
+    WF (R (some q)).1 ∧ Pend c (R (some q)).1 ∧ (R (some q)).1.hintZero = true ∧
+    (c, CEv.resumed) ∈ (resumeSuspended srcGuards (R (some q)).1).2 ∧ c ∈ (resumeSuspended srcGuards (R (some q)).1).1.active
+
+/-- RESUME AT ANY POINT OF A ROUND.  The rounds of the three event loops are split into their atomic steps —
+    every step runs with, or is protected by, cleanup_connection_mutex, and so is MHD_resume_connection:
+    epoll: resume_suspended_connections | epoll_wait results | new connections | timeout scan | one call_handlers per
+    eready entry; select / poll: resume_suspended_connections | new connections | one call_handlers per connection of the
+    snapshot.  `roundEpollAt` / `roundSelectAt` / `roundPollAt` are the rounds of the model (`… none` = `roundEpoll` /
+    `roundSelect` / `roundPoll`) with the request of another thread landing between any two steps (`some q`: q = 0, 1, 2, …,
+    beyond the last turn = at the end).  In every reachable state, for a suspended connection nobody has asked to resume
+    yet, for every position, every kernel answer and every script: the request is served (`ServedAt`). -/
+theorem resume_any_point_of_round (m : Mode) (plans : Nat → Plan) (later : Nat → List Plan) (ops : List Op) (c : Nat)
+    (ids : List Nat) (hnd : ids.Nodup) (rd wr : Nat → Bool) (evs : List (Nat × Bool × Bool)) :
+    let d := (run srcGuards (Daemon.init m plans later) ops).1
+    c ∈ d.susp → (d.conn c).resuming = false → (d.conn c).timer ≠ some 0 →
+    ServedAt c (roundEpollAt srcGuards d ids evs c) ∧ ServedAt c (roundSelectAt srcGuards d ids rd wr c) ∧
+    ServedAt c (roundPollAt srcGuards d ids rd wr c) ∧
+    roundEpollAt srcGuards d ids evs c none = roundEpoll srcGuards d ids evs ∧
+    roundSelectAt srcGuards d ids rd wr c none = roundSelect srcGuards d ids rd wr ∧
+    roundPollAt srcGuards d ids rd wr c none = roundPoll srcGuards d ids rd wr := by
+  intro d hs hr ht
+  have hw := lists_consistent m plans later ops
+  have fin : ∀ R : Option Nat → Daemon × List Ev,
+      ((c, CEv.resumed) ∈ (R (some 0)).2 ∧ ∀ q, 1 ≤ q → GS c (R (some q)).1) → ServedAt c R := by
+    intro R h
+    refine ⟨h.1, fun q hq => ?_⟩
+    have gs := h.2 q hq
+    have sv := gs.served srcGuards
+    exact ⟨gs.1, gs.2, sv.1, sv.2.1, sv.2.2.1⟩
+  exact ⟨fin _ (resume_any_point_epoll srcGuards guards_present c d hw ⟨hs, hr⟩ ht ids hnd evs),
+    fin _ (resume_any_point_select srcGuards guards_present c d hw ⟨hs, hr⟩ ht ids hnd rd wr),
+    fin _ (resume_any_point_poll srcGuards guards_present c d hw ⟨hs, hr⟩ ht ids hnd rd wr),
+    roundEpollAt_none _ _ _ _ _, roundSelectAt_none _ _ _ _ _ _, roundPollAt_none _ _ _ _ _ _⟩
 
 /-! ### non-vacuity, and witnesses that the guards are necessary -/
 
@@ -476,10 +485,16 @@ example :
 example : ∀ p ∈ ({ body := .cl 2, size := 1 } : Plan) :: [{ body := .none, size := 1 }, { body := .cl 1, size := 1 }],
     p.body ≠ .chunked := by decide
 
-/-- hypotheses of `resume_inside_traversal_partial`: connection 0 suspended, connection 1 in the traversal -/
+/-- hypotheses of `resume_any_point_of_round` (connection 0 suspended, nobody has asked to resume it, connection 1 is
+    in the traversal), and one injected round evaluated: the request lands before the first eready turn (position 4)
+    of a round without epoll events; at the end it is pending -/
 example : let d := (run srcGuards (Daemon.init .epoll demoPlans noLater)
-      [.arrive 0, .arrive 1, .send 0 demoSyms, .eround [0, 1] [], .eround [0, 1] [(0, true, true)]]).1
-    0 ∈ d.susp ∧ 0 ∉ [1] := by decide
+      [.arrive 0, .arrive 1, .send 0 demoSyms, .send 1 [.head], .eround [0, 1] [], .eround [0, 1] [(0, true, true), (1, true, true)]]).1
+    0 ∈ d.susp ∧ (d.conn 0).resuming = false ∧ (d.conn 0).timer ≠ some 0 ∧ d.eready ≠ [] ∧
+    0 ∈ (roundEpollAt srcGuards d [0, 1] [] 0 (some 4)).1.susp ∧
+    ((roundEpollAt srcGuards d [0, 1] [] 0 (some 4)).1.conn 0).resuming = true ∧
+    (roundEpollAt srcGuards d [0, 1] [] 0 (some 4)).1.resuming = true ∧
+    (0, CEv.resumed) ∈ (roundEpollAt srcGuards d [0, 1] [] 0 (some 0)).2 := by decide
 
 /-- the unchanged tree's `process_request_body` loops `while (instant_retry)` without looking at
     `connection->suspended`; every other guard present -/
